@@ -44,7 +44,7 @@ add("C28", "exploration",
     "runtime invariant initial <= value <= max observed through the cfg hook Backoff::verif_value "
     "after every increment()/reset() over seeded ChaCha20 streams and configs; reset checked against "
     "real elapsed time",
-    "10^4 (quick) .. 6x10^5 (thorough) sequences of 200 calls over the default config, tiny steps, "
+    "10^4 (quick) .. 5x10^6 (thorough) sequences of 200 calls over the default config, tiny steps, "
     "initial == max, fast reset windows and random configs; the value is read after every call. A "
     "second stage builds backoffs with reset windows of 5..20 ms, sleeps a real 25 ms (a lower bound "
     "on elapsed time of a monotone clock) and requires the next increment() to yield the initial "
